@@ -277,7 +277,15 @@ private:
                     case  4: { read_data< detail::row_buffer_helper_view< gray4_image_t::view_t > >( v, 0 );  break; }
                     case  8: { read_data< detail::row_buffer_helper_view< gray8_view_t  > >( v, 0 );  break; }
                     case 16: { read_data< detail::row_buffer_helper_view< gray16_view_t > >( v, 0 );  break; }
-                    case 32: { read_data< detail::row_buffer_helper_view< gray32_view_t > >( v, 0 );  break; }
+                    case 32:
+                    {
+                        // 32 bit samples are unsigned integers or IEEE floating point numbers
+                        if( this->_info._sample_format == SAMPLEFORMAT_IEEEFP )
+                            read_data< detail::row_buffer_helper_view< gray32f_view_t > >( v, 0 );
+                        else
+                            read_data< detail::row_buffer_helper_view< gray32_view_t > >( v, 0 );
+                        break;
+                    }
                     default: { io_error( "Image type is not supported." ); }
                 }
 
@@ -294,7 +302,15 @@ private:
                         {
                             case  8: { read_data< detail::row_buffer_helper_view< rgb8_view_t  > >( v, 0 );  break; }
                             case 16: { read_data< detail::row_buffer_helper_view< rgb16_view_t > >( v, 0 );  break; }
-                            case 32: { read_data< detail::row_buffer_helper_view< rgb32_view_t > >( v, 0 );  break; }
+                            case 32:
+                            {
+                                // 32 bit samples are unsigned integers or IEEE floating point numbers
+                                if( this->_info._sample_format == SAMPLEFORMAT_IEEEFP )
+                                    read_data< detail::row_buffer_helper_view< rgb32f_view_t > >( v, 0 );
+                                else
+                                    read_data< detail::row_buffer_helper_view< rgb32_view_t > >( v, 0 );
+                                break;
+                            }
                             default: { io_error( "Image type is not supported." ); }
                         }
 
@@ -307,7 +323,15 @@ private:
                         {
                             case  8: { read_data< detail::row_buffer_helper_view< rgba8_view_t  > >( v, 0 );  break; }
                             case 16: { read_data< detail::row_buffer_helper_view< rgba16_view_t > >( v, 0 );  break; }
-                            case 32: { read_data< detail::row_buffer_helper_view< rgba32_view_t > >( v, 0 );  break; }
+                            case 32:
+                            {
+                                // 32 bit samples are unsigned integers or IEEE floating point numbers
+                                if( this->_info._sample_format == SAMPLEFORMAT_IEEEFP )
+                                    read_data< detail::row_buffer_helper_view< rgba32f_view_t > >( v, 0 );
+                                else
+                                    read_data< detail::row_buffer_helper_view< rgba32_view_t > >( v, 0 );
+                                break;
+                            }
                             default: { io_error( "Image type is not supported." ); }
                         }
 
@@ -325,7 +349,15 @@ private:
                 {
                     case  8: { read_data< detail::row_buffer_helper_view< cmyk8_view_t  > >( v, 0 );  break; }
                     case 16: { read_data< detail::row_buffer_helper_view< cmyk16_view_t > >( v, 0 );  break; }
-                    case 32: { read_data< detail::row_buffer_helper_view< cmyk32_view_t > >( v, 0 );  break; }
+                    case 32:
+                    {
+                        // 32 bit samples are unsigned integers or IEEE floating point numbers
+                        if( this->_info._sample_format == SAMPLEFORMAT_IEEEFP )
+                            read_data< detail::row_buffer_helper_view< cmyk32f_view_t > >( v, 0 );
+                        else
+                            read_data< detail::row_buffer_helper_view< cmyk32_view_t > >( v, 0 );
+                        break;
+                    }
                     default: { io_error( "Image type is not supported." ); }
                 }
 
